@@ -462,6 +462,9 @@ static const hshape_t HSH[] = {
     { "", "", 1 }, { "a.b", "", 1 }, { "", ".b", 1 }, { "\"", "\"", 1 }, { "\"a\".", "", 1 }, { "", ".\"a\"", 1 },
     { "\"a\"b", "", 0 }, { "a..b", "", 0 }, { ".", "", 0 }, { "", ".", 0 }, { "", "..b", 0 }, { "", "\"", 0 }, { "\"", "", 0 }, { "a\"", "\"", 0 },
     { "\"a\"", "", 0 }, { "", "\"a\"", 0 }, { "a b", "", 0 }, { "", " b", 0 }, { "\"\r\n ", "\"", 2 }, { "\"", "\r\n \"", 2 },
+    /* white space inside a quoted string whose verdict depends on the character BEFORE it (RFC 5322 mode: allowed right after the opening quote, not between
+     * two letters): a look-behind through a truncated index reads a byte 2^8 / 2^16 / 2^32 positions earlier - a letter instead of the quote, or the reverse */
+    { "", ".\" b\"", 1 }, { "\"", " ba\"", 2 }, { "\"", " \"", 1 }, { "\" ", "\"", 1 }, { "\"a b", "\"", 2 },
 #ifdef C03
     { "\xd0\xb6.", "", 1 }, { "", ".\xd0\xb6", 1 }, { "\xd0\xb6\"", "\"", 0 }, { "\xff", "", 0 }, { "", "\xd0", 0 },
 #endif
@@ -472,7 +475,7 @@ static void huge_lengths(void) {
     for (int k = 1; k <= 4; k++) for (size_t d = 0; d <= 2; d++) HUGE_L[HUGE_N++] = (size_t)k * 256 + d;
     static const int K16[] = { 1, 2, 16 };
     for (int i = 0; i < 3; i++) for (size_t d = 0; d <= 5; d++) HUGE_L[HUGE_N++] = (size_t)K16[i] * 65536 + d;
-    if (!mc_thorough) HUGE_L[HUGE_N++] = ((size_t)1 << 31) + 5;      /* one length beyond INT_MAX in the quick tier too */
+    if (!mc_thorough) { HUGE_L[HUGE_N++] = ((size_t)1 << 31) + 5; HUGE_L[HUGE_N++] = ((size_t)1 << 32) + 5; }      /* one length beyond INT_MAX and one beyond UINT_MAX in the quick tier too */
     if (mc_thorough) { static const size_t B[] = { (size_t)1 << 24, (size_t)1 << 31, (size_t)1 << 32 }; static const size_t D[] = { 0, 1, 5 };
         for (int i = 0; i < 3; i++) for (int j = 0; j < 3; j++) HUGE_L[HUGE_N++] = B[i] + D[j]; }
 }
@@ -567,7 +570,7 @@ int main(int argc, char **argv) {
 #endif
     mc_parallel("align: atom / quoted strings of 1..48 characters, one deviating byte at every position, at each of 16 start alignments", 48, align_shard, NULL);
     if (!core) { huge_lengths(); size_t mx = 0; for (int i = 0; i < HUGE_N; i++) if (HUGE_L[i] > mx) mx = HUGE_L[i];
-      huge_alloc(mx); char nmh[160]; snprintf(nmh, sizeof nmh, "huge: %d shapes (feature at the start / at the end) x %d lengths k*2^8+d, k*2^16+d%s", NHSH, HUGE_N, mc_thorough ? ", 2^24+d, 2^31+d, 2^32+d" : ", 2^31+5");
+      huge_alloc(mx); char nmh[160]; snprintf(nmh, sizeof nmh, "huge: %d shapes (feature at the start / at the end) x %d lengths k*2^8+d, k*2^16+d%s", NHSH, HUGE_N, mc_thorough ? ", 2^24+d, 2^31+d, 2^32+d" : ", 2^31+5, 2^32+5");
       mc_parallel(nmh, (long)HUGE_N * NHSH * NMODES, huge_shard, NULL); munmap(HB, HBCAP); }
     int n1 = mc_thorough ? 8 : 6;
     memset(&L1E, 0, sizeof L1E);
